@@ -301,6 +301,7 @@ def nestedSizeBytes (NT BT : CTy) (chk : Bool) (g : Group) (esize : Int → Nat)
 
 /-- `g.front()` of a nested group -/
 def nestedFront (NT BT : CTy) (chk : Bool) (g : Group) : Outcome Int := do
+  let _ ← runK nested_group_header_check chk [ptrBits g.addr, ptrBits g.end_, g.hdr]
   assertNotEmpty NT chk g
   let b ← nestedBegin NT BT chk g
   pure b.ptr
@@ -335,6 +336,58 @@ def resize (NT : CTy) (lay : DimLayout) (buf : List Nat) (hoff : Nat) (count : C
 
 def clear (NT : CTy) (lay : DimLayout) (buf : List Nat) (hoff : Nat) : Option (List Nat) :=
   resize NT lay buf hoff ⟨.i32, 0⟩
+
+/-! ### the remaining one-line members of `flat_group_base` / `nested_group_base`
+    (hand definitions added for the method-level translator tie,
+    `extract/methods_group.py` → `Sbepp.Extracted.GroupMethods`, `Lemmas/GroupTie.lean`) -/
+
+/-- `(*this)(get_header_tag{})` of a nested group -/
+def nestedHeaderCheck (g : Group) (chk : Bool) : Outcome Unit := do
+  let _ ← runK nested_group_header_check chk [ptrBits g.addr, ptrBits g.end_, g.hdr]
+  pure ()
+
+/-- `g.sbe_size()` / `g.size()`: `(*this)(get_header_tag{}).numInGroup()` and its `.value()` -/
+def flatSize (NT : CTy) (chk : Bool) (g : Group) : Outcome CVal := do
+  headerCheck g chk
+  pure (groupSize NT g)
+
+def nestedSize (NT : CTy) (chk : Bool) (g : Group) : Outcome CVal := do
+  nestedHeaderCheck g chk
+  pure (groupSize NT g)
+
+/-- `g.empty()` is `!size()` -/
+def flatEmpty (NT : CTy) (chk : Bool) (g : Group) : Outcome Bool := do
+  let s ← flatSize NT chk g
+  pure (s.bits == 0)
+
+def nestedEmpty (NT : CTy) (chk : Bool) (g : Group) : Outcome Bool := do
+  let s ← nestedSize NT chk g
+  pure (s.bits == 0)
+
+/-- `*it` of a forward iterator: the entry view starts at `ptr` -/
+def fwdDeref (it : FwdIter) : Int := it.ptr
+
+/-- `g.resize(count)` as a member function of the view: the header is fetched
+    through `(*this)(get_header_tag{})` (size check in checked builds), then its
+    `numInGroup` setter runs -/
+def flatResize (NT : CTy) (chk : Bool) (lay : DimLayout) (g : Group) (buf : List Nat) (hoff : Nat) (count : CVal) :
+    Outcome (Option (List Nat)) := do
+  headerCheck g chk
+  pure (resize NT lay buf hoff count)
+
+/-- `g.clear()` is `resize(0)` -/
+def flatClear (NT : CTy) (chk : Bool) (lay : DimLayout) (g : Group) (buf : List Nat) (hoff : Nat) :
+    Outcome (Option (List Nat)) :=
+  flatResize NT chk lay g buf hoff ⟨.i32, 0⟩
+
+def nestedResize (NT : CTy) (chk : Bool) (lay : DimLayout) (g : Group) (buf : List Nat) (hoff : Nat) (count : CVal) :
+    Outcome (Option (List Nat)) := do
+  nestedHeaderCheck g chk
+  pure (resize NT lay buf hoff count)
+
+def nestedClear (NT : CTy) (chk : Bool) (lay : DimLayout) (g : Group) (buf : List Nat) (hoff : Nat) :
+    Outcome (Option (List Nat)) :=
+  nestedResize NT chk lay g buf hoff ⟨.i32, 0⟩
 
 end Rt
 end Sbepp
